@@ -434,6 +434,12 @@ func (s *searcher) classify() []Violation {
 				paired = true
 				out = append(out, Violation{Kind: "name-mismatch", Watcher: wi, Site: opString(e.Op),
 					Detail: fmt.Sprintf("expected %s, delivered %s || %s", e, d.Str, reasons)})
+				if cleanPath(d.Name) != cleanPath(e.Name) {
+					// not another spelling of the same entry but a different entry: the delivered
+					// event has no cause and the expected one was not delivered under its name
+					out = append(out, Violation{Kind: "phantom-event", Watcher: wi, Site: opString(d.Op), Detail: fmt.Sprintf("delivered %s names an entry to which that did not happen (expected %s) || %s", d.Str, e, reasons)})
+					out = append(out, Violation{Kind: "lost-event", Watcher: wi, Site: opString(e.Op), Detail: fmt.Sprintf("expected %s was delivered under another entry's name (%s) || %s", e, d.Str, reasons)})
+				}
 				break
 			}
 		}
